@@ -30,13 +30,14 @@ static int process_data(xfrm_stream_t *stream, const void *in,
 			int flush_mode)
 {
 	xfrm_stream_gzip_t *gzip = (xfrm_stream_gzip_t *)stream;
-	sqfs_u32 diff;
+	sqfs_u32 diff, out_diff;
 	int ret;
 
 	if (flush_mode < 0 || flush_mode >= XFRM_STREAM_FLUSH_COUNT)
 		flush_mode = XFRM_STREAM_FLUSH_NONE;
 
-	while (in_size > 0 && out_size > 0) {
+	while ((in_size > 0 || flush_mode == XFRM_STREAM_FLUSH_FULL) &&
+	       out_size > 0) {
 		gzip->strm.next_in = (void *)in;
 		gzip->strm.avail_in = in_size;
 
@@ -57,10 +58,10 @@ static int process_data(xfrm_stream_t *stream, const void *in,
 		in_size -= diff;
 		*in_read += diff;
 
-		diff = out_size - gzip->strm.avail_out;
-		out = (char *)out + diff;
-		out_size -= diff;
-		*out_written += diff;
+		out_diff = out_size - gzip->strm.avail_out;
+		out = (char *)out + out_diff;
+		out_size -= out_diff;
+		*out_written += out_diff;
 
 		if (ret == Z_STREAM_END) {
 			if (gzip->compress) {
@@ -75,8 +76,18 @@ static int process_data(xfrm_stream_t *stream, const void *in,
 			return XFRM_STREAM_END;
 		}
 
-		if (ret == Z_BUF_ERROR)
+		if (ret == Z_BUF_ERROR) {
+			/* no more input will come, there is room for output,
+			   but we are still in the middle of a stream */
+			if (diff == 0 && out_diff == 0 &&
+			    !gzip->compress && in_size == 0 &&
+			    flush_mode == XFRM_STREAM_FLUSH_FULL &&
+			    gzip->strm.total_in > 0) {
+				return XFRM_STREAM_ERROR;
+			}
+
 			return XFRM_STREAM_BUFFER_FULL;
+		}
 	}
 
 	return XFRM_STREAM_OK;
